@@ -55,6 +55,8 @@ def completed(ps: List[Dict[str, Any]], vals: Dict[str, Any]) -> Dict[str, Any]:
             # the row named explicitly, or by the TABLE-STRUCT that uses the key
             user = next((vals[q["n"]] for q in ps if q["k"] == "TABLE-STRUCT" and q["sys"] == n and vals.get(q["n"]) is not None), None)
             out[n] = vals.get(n) if vals.get(n) is not None else (user[0] if isinstance(user, (tuple, list)) else None)
+            if p["cv"]["t"] == "str":
+                out[n] = p["cv"]["s"]       # selected statically
         else:
             out[n] = None
     return out
